@@ -347,15 +347,15 @@ def judge_sites(o: Outcome, sites, same, r):
             if k == "exc":
                 rec = {"kind": "b-site-call", "name": c["name"], "lang": site["lang"], "added_namespaces": site["syn"], "namespace": c["key"],
                        "namespace_id": c["id"], "form": c["form"], "position": c["pos"], "title": c["title"], "wikitext": wt, "observed": txt}
-                why = (f"{wt} on page {c['title']!r} in {where} raised {txt}: the call depends on the namespace table - {what}, "
-                       f"used as {'the page title' if c['pos'] == 'title' else 'the first argument'} (specification: every parser function answers in-band "
-                       "whatever the table holds around the namespace)")
+                why = (f"{wt} on page {c['title']!r} in {where} raised {txt} - {what}, used as "
+                       f"{'the page title' if c['pos'] == 'title' else 'the first argument'} (specification: every parser function answers in-band "
+                       "whatever the namespace table of the configured language holds around the namespace)")
                 cls = f"b-site-{c['name']}-{txt.split(':')[0]}"
                 if not c["attested"]:
                     excs_unattested[c["name"] + ": " + txt.split(":")[0]] += 1
                     o.note_drift({"call": wt, "title": c["title"], "lang": site["lang"], "raised": txt,
                                   "note": "a namespace kind that no shipped table has (talk namespace without subject)"})
-                elif c["asis"]["kind"] == "exc":
+                elif c["asis"]["kind"] == "exc" and txt.split(":")[0] == c["asis"]["via"]:   # the exception the as-is model predicts
                     o.classify(rec, why, [deviation_of(c)], cls=cls)
                 else:
                     o.violation(rec, why, cls=cls)
